@@ -131,13 +131,14 @@ theorem load_never_wrong (t : Toc) (hv : TocValid t) (hwf : TocWF t) :
   rw [loads_printToc t hv]; exact loadToc_cases t hwf
 
 /-- ... at the level of `TocCache`: `insert(crc, toc)` into a writable rw directory followed by `fetch(crc)` returns the
-stored table (or `None` when a key is `__class__`): never another table, never an exception. -/
-theorem fetch_after_insert_eq_store (fs : FS) (c : Cache) (crc : Nat) (t : Toc) (d : Path) (hrw : c.rw = some d)
-    (hw : fs.canWrite d = true) (hv : TocValid t) (hwf : TocWF t) :
+stored table (or `None` when a key is `__class__`): never another table, never an exception.
+(`openW = some _`: the directory is writable and the name is not occupied by a directory / an unwritable entry.) -/
+theorem fetch_after_insert_eq_store (fs fs' : FS) (c : Cache) (crc : Nat) (t : Toc) (d : Path) (hrw : c.rw = some d)
+    (ho : fs.openW d (storedName d crc) = some fs') (hv : TocValid t) (hwf : TocWF t) :
     ((c.insert fs crc t).2.fetch (c.insert fs crc t).1 crc = .ok (tocVal t) ∨
      (c.insert fs crc t).2.fetch (c.insert fs crc t).1 crc = .ok .null) ∧
     (NoClassKey t → (c.insert fs crc t).2.fetch (c.insert fs crc t).1 crc = .ok (tocVal t)) := by
-  rw [fetch_after_insert fs c crc t d hrw hw, loadBytes_printToc t hv]
+  rw [fetch_after_insert fs fs' c crc t d hrw ho, loadBytes_printToc t hv]
   constructor
   · rcases loadToc_cases t hwf with h | h <;> rw [h] <;> simp
   · intro hc; rw [loadToc_plain t hwf hc]
@@ -168,7 +169,8 @@ theorem truncated_file_is_miss (fs : FS) (c : Cache) (crc : Nat) (p : Path) (t :
     c.fetch fs crc = .ok .null := by
   rw [fetch_of_hit fs c crc p _ hh hr, truncation_is_miss t hv hwf k hk]
 
-/-- no matching cached path, or the matching file cannot be opened: `None` -/
+/-- no matching cached path, or the matching entry cannot be opened - it vanished after the directory scan, or it is a
+directory, a dangling link or an unreadable file (`FS.ghosts`: listed by `glob`, never readable): `None` -/
 theorem missing_file_is_miss (fs : FS) (c : Cache) (crc : Nat) :
     (findHit c.files (hex08 crc ++ dotJson) = none → c.fetch fs crc = .ok .null) ∧
     (∀ p, findHit c.files (hex08 crc ++ dotJson) = some p → fs.read p = none → c.fetch fs crc = .ok .null) :=
@@ -184,13 +186,13 @@ theorem unparsable_file_is_miss (fs : FS) (c : Cache) (crc : Nat) (p : Path) (bs
 /-- **Crash during the write.**  `insert` is cut after any `k` bytes (process killed, or `write` raised); the next
 process builds a new `TocCache` over the same directories; provided no foreign file in the rw directory has a name
 ending in the same pattern, `fetch` of that checksum is a miss. -/
-theorem crash_then_restart_is_miss (fs : FS) (c : Cache) (crc : Nat) (t : Toc) (k : Nat) (d : Path) (ro : Option Path)
-    (hrw : c.rw = some d) (hw : fs.canWrite d = true) (hcrc : crc < 4294967296)
+theorem crash_then_restart_is_miss (fs fs' : FS) (c : Cache) (crc : Nat) (t : Toc) (k : Nat) (d : Path) (ro : Option Path)
+    (hrw : c.rw = some d) (ho : fs.openW d (storedName d crc) = some fs') (hcrc : crc < 4294967296)
     (hv : TocValid t) (hwf : TocWF t) (hk : k < (encodeText (printToc t)).length)
     (fs2 : FS) (c2 : Cache) (hinit : Cache.init (c.insertCut fs crc t k).1 ro (some d) = .ok (fs2, c2))
     (huniq : ∀ q ∈ glob (c.insertCut fs crc t k).1 d, endsWith q (hex08 crc ++ dotJson) = true → q = storedName d crc) :
     c2.fetch fs2 crc = .ok .null :=
-  crash_restart_aux fs c crc t k d ro hrw hw hcrc hv hwf hk fs2 c2 hinit huniq
+  crash_restart_aux fs fs' c crc t k d ro hrw ho hcrc hv hwf hk fs2 c2 hinit huniq
 
 /-- **A miss is downloaded.**  When `fetch` returns something falsy (`None` for every case above, or an empty table) the
 fetcher requests element 0 (and with an empty device table stores `{}` and finishes) ... -/
@@ -218,22 +220,29 @@ theorem hit_uses_cache (w : World) (nbr crc : Nat) (hs : w.f.state = .getInfo) (
 
 /-! ## All clauses together, over histories -/
 
-/-- **Never a wrong table.**  Start from an empty writable cache directory `d`.  After ANY sequence of completed
-`insert`s, `insert`s cut short at any byte (crash / write error) and restarts (a new `TocCache` in a new process), for every
-32-bit checksum `fetch` returns `None` or exactly the table LAST written under that checksum - never a partial table, never a
-table written under another checksum, never an older table, never an exception.  (Tables are dicts of dicts of elements with
-valid strings: `Op.Ok`.) -/
+/-- **Never a wrong table.**  Start from an empty writable cache directory `d`.  After ANY sequence of `insert`s
+(completed, cut short at any byte by a crash / write error, or failing because the name is occupied), restarts (a new
+`TocCache` in a new process) and outside interference (the file of a checksum removed behind the live cache's back, or
+replaced by a directory, a dangling link or an unreadable file), for every 32-bit checksum `fetch` returns `None` or exactly
+the table whose write was LAST started under that checksum - never a partial table, never a table written under another
+checksum, never an older table, never an exception.  (Tables are dicts of dicts of elements with valid strings: `Op.Ok`.) -/
 theorem never_wrong_table (d : Path) (ops : List Op) (hok : ∀ op ∈ ops, op.Ok) (crc : Nat) (hc : crc < 4294967296) :
-    let s := applyOps d (⟨[], [d], false⟩, ⟨[], some d⟩) ops
-    s.2.fetch s.1 crc = .ok .null ∨
-      ∃ t, lastWritten (fun _ => none) ops crc = some t ∧ s.2.fetch s.1 crc = .ok (tocVal t) := by
-  intro s
-  have h0 : Inv d (fun _ => none) (⟨[], [d], false⟩, ⟨[], some d⟩) := by
-    refine ⟨by simp [FS.canWrite], rfl, ?_, ?_, ?_⟩
+    let r := applyOps d ((⟨[], [], [d], false⟩, ⟨[], some d⟩), fun _ => none) ops
+    r.1.2.fetch r.1.1 crc = .ok .null ∨ ∃ t, r.2 crc = some t ∧ r.1.2.fetch r.1.1 crc = .ok (tocVal t) := by
+  intro r
+  have h0 : Inv d (fun _ => none) (⟨[], [], [d], false⟩, ⟨[], some d⟩) := by
+    refine ⟨by simp [FS.canWrite], rfl, ?_, ?_, ?_, ?_⟩
+    · intro p hp; cases hp
     · intro p hp; cases hp
     · intro crc' _ bs hr; cases hr
     · intro p hp; cases hp
-  exact inv_fetch d _ s (inv_ops d _ _ ops hok h0) crc hc
+  exact inv_fetch d _ r.1 (inv_ops d _ ops hok h0) crc hc
+
+/-- the tracked table is the syntactically last write when nothing blocks the names (no `block` in the history) -/
+theorem tracked_is_last_insert (d : Path) (s : HSt) (crc : Nat) (t : Toc) (fs' : FS)
+    (ho : s.1.1.openW d (storedName d crc) = some fs') :
+    (applyOp d s (.insert crc t)).2 crc = some t ∧ ∀ k, (applyOp d s (.insertCut crc t k)).2 crc = some t := by
+  simp [applyOp, ho, setH]
 
 /-! ## Clause 4: the read-only cache directory is never written -/
 
@@ -277,13 +286,13 @@ theorem cxLogToc_ok : TocValid cxLogToc ∧ TocWF cxLogToc ∧ NoClassKey cxLogT
 takes that file as a hit: its table is the log table (LogTocElements), nothing is downloaded.  (`TocFetcher` never looks at
 its `element_class` on the cache path; the file name carries the checksum only.) -/
 theorem collision_counterexample :
-    let fs0 : FS := ⟨[], [cxDir], false⟩
+    let fs0 : FS := ⟨[], [], [cxDir], false⟩
     let c0 : Cache := ⟨[], some cxDir⟩
     let paramFetcher : Fetcher := ⟨.getInfo, 0, 0, 0, .typed []⟩
     ∃ w', fetcherStep ⟨(c0.insert fs0 7 cxLogToc).1, (c0.insert fs0 7 cxLogToc).2, paramFetcher⟩ (.info 1 7) = .ok (w', [.finished]) ∧
       w'.f.toc = .loaded (tocVal cxLogToc) ∧ (∀ g ∈ cxLogToc, ∀ m ∈ g.2, m.2.cls = .log) := by
   intro fs0 c0 paramFetcher
-  have hf := (fetch_after_insert_eq_store fs0 c0 7 cxLogToc cxDir rfl (by decide) cxLogToc_ok.1 cxLogToc_ok.2.1).2 cxLogToc_ok.2.2
+  have hf := (fetch_after_insert_eq_store fs0 fs0 c0 7 cxLogToc cxDir rfl (openW_clean fs0 cxDir _ (by decide) rfl) cxLogToc_ok.1 cxLogToc_ok.2.1).2 cxLogToc_ok.2.2
   refine ⟨_, fetcher_info_hit ⟨_, _, paramFetcher⟩ 1 7 rfl (tocVal cxLogToc) hf (by simp [tocVal, cxLogToc, truthy]), rfl, ?_⟩
   intro g hg m hm
   simp only [cxLogToc, List.mem_singleton] at hg
@@ -320,7 +329,9 @@ set_option maxRecDepth 16384 in
 example : loads (ofString "{\"g\": {\"n\": {\"__class__\": \"LogTocElement\", \"ident\": 3, \"group\": \"g\", \"name\": \"n\", \"ctype\": \"c\", \"pytype\": \"p\", \"access\": 0}}}")
     = .ok (tocVal [([103], [([110], .log ⟨3, [103], [110], [99], [112], 0⟩)])]) := by rfl
 example : (Op.insertCut 7 cxLogToc 12).Ok := ⟨by decide, cxLogToc_ok.1, cxLogToc_ok.2.1⟩
-example : lastWritten (fun _ => none) [.insert 7 [], .restart, .insertCut 7 cxLogToc 12, .insert 8 []] 7 = some cxLogToc := rfl
+example : (Op.block 7 .dir).Ok ∧ (Op.unlink 7).Ok := ⟨(by decide : 7 < 4294967296), (by decide : 7 < 4294967296)⟩
+example : (⟨[], [(ofString "/rw/0000BEEF.json", .dir)], [ofString "/rw"], false⟩ : FS).openW (ofString "/rw") (ofString "/rw/0000BEEF.json") = none := by decide
+example : glob ⟨[], [(ofString "/rw/0000BEEF.json", .dangling)], [ofString "/rw"], false⟩ (ofString "/rw") = [ofString "/rw/0000BEEF.json"] := by decide
 example : truthy .null = .ok false ∧ truthy (.obj []) = .ok false := ⟨rfl, rfl⟩
 example : TocWF (addAll [] [.log ⟨0, [103], [110], [99], [112], 0⟩, .param ⟨1, [103], [110], [99], [112], 1⟩ true]) :=
   downloaded_table_is_dict _
